@@ -305,7 +305,7 @@ def derivations(spec, lex, ey, end=None, limit=200):
 
 # ---------------------------------------------------------------------------------------------
 # Independent brute-force check of the recogniser (used by self-validation).
-def brute_language(spec, maxlen):
+def brute_language(spec, maxlen, slack=6):
     """Set of token-name tuples of length <= maxlen derivable from the start symbol (BFS over
     sentential forms with pruning).  Independent of Earley/Chart."""
     from collections import deque
@@ -336,7 +336,7 @@ def brute_language(spec, maxlen):
             nf = form[:idx] + spec.prods[pi][1] + form[idx + 1 :]
             if sum(minlen[s] for s in nf) > maxlen:
                 continue
-            if len(nf) > 4 * maxlen + 8:  # nullable symbols make sentential forms longer than the sentence
+            if len(nf) > maxlen + slack:  # nullable symbols make sentential forms longer than the sentence
                 continue
             if nf not in seen:
                 seen.add(nf)
